@@ -26,6 +26,7 @@
  *      partial|ft|send HEX|closepeer|resetpeer cN (each: write to the peer socket, then run the event
  *      loop to rest) | appclose|start|refuse cN | kbdclose cN | gonekick cN cM | ext | pump | out cN |
  *      pw (clients must authenticate from now on) | auth cN ok|bad | ptr cN MASK | ftgo cN | cursor | shutdown0 |
+ *      extrefuse cN (the extension's init hook will ask to be removed) | extdrop cN | extadd cN |
  *      draw SEED (repaint the framebuffer, mark it modified, run the loop) | shutdown | cleanup | end
  */
 #define _GNU_SOURCE
@@ -47,7 +48,7 @@ typedef struct {
   int used, id;
   rfbClientPtr cl;       /* live record known to the application (hook ran, gone hook not yet) */
   int peer, srvfd;
-  int hooked, gone, closes, isws, kbdclose, gonekick;
+  int hooked, gone, closes, isws, kbdclose, gonekick, xrefuse;
   int decision;          /* what the newClientHook answers */
   vh_buf out;
 } conn_t;
@@ -213,8 +214,12 @@ static rfbBool ext_new(rfbClientPtr cl, void **data) {
   return TRUE;
 }
 static rfbBool ext_init(rfbClientPtr cl, void *data) {
-  (void)cl;
+  conn_t *c = (conn_t *)cl->clientData;
   ev("xinit c%d", data ? ((ext_data *)data)->connid : -1);
+  if (c && c->xrefuse) {      /* "remove me": the library calls rfbDisableExtension, which frees the data */
+    ev("xdrop c%d", c->id);
+    return FALSE;
+  }
   return TRUE;
 }
 static void ext_close(rfbClientPtr cl, void *data) {
@@ -445,7 +450,12 @@ static void __attribute__((noinline)) run_ops(void) {
       print_state(); fflush(stdout); continue;
     }
     if (!strcmp(tok[0], "shutdown0") && n == 1) { rfbShutdownServer(scr, FALSE); print_state(); fflush(stdout); continue; }
-    if (!strcmp(tok[0], "ext") && n == 1) { rfbRegisterProtocolExtension(&harness_ext); rfbRegisterProtocolExtension(&harness_ext2); print_state(); fflush(stdout); continue; }
+    if (!strcmp(tok[0], "ext") && n <= 2) {
+      /* registration order decides where the node of the extension with data sits in cl->extensions:
+         "ext" -> first (head), "ext rev" -> behind the other one */
+      if (n == 2) { rfbRegisterProtocolExtension(&harness_ext2); rfbRegisterProtocolExtension(&harness_ext); }
+      else { rfbRegisterProtocolExtension(&harness_ext); rfbRegisterProtocolExtension(&harness_ext2); }
+      print_state(); fflush(stdout); continue; }
     if (!strcmp(tok[0], "draw") && n == 2) {   /* the application paints, then the loop runs to rest */
       int seed = atoi(tok[1]), k;
       vh_srand((uint64_t)seed * 7919 + 1);
@@ -486,6 +496,19 @@ static void __attribute__((noinline)) run_ops(void) {
     }
     else if (!strcmp(tok[0], "key")) { unsigned char m[8] = {4, 1, 0, 0, 0, 0, 0, 0x41}; peer_send(c, m, 8); pump(); }
     else if (!strcmp(tok[0], "kbdclose")) { c->kbdclose = 1; }
+    else if (!strcmp(tok[0], "extrefuse")) { c->xrefuse = 1; }
+    else if (!strcmp(tok[0], "extdrop") || !strcmp(tok[0], "extadd")) {
+      /* the application disables / enables its extension for an open client it knows */
+      rfbExtensionData *xd; int on = 0;
+      if (!c->cl || c->cl->sock == RFB_INVALID_SOCKET) { puts("bad-op"); fflush(stdout); continue; }
+      for (xd = c->cl->extensions; xd; xd = xd->next) if (xd->extension == &harness_ext) on = 1;
+      if (tok[0][3] == 'd') {
+        if (on) { ev("xdrop c%d", c->id); rfbDisableExtension(c->cl, &harness_ext); }
+      } else if (!on) {
+        ext_data *d = (ext_data *)calloc(1, sizeof *d); d->connid = c->id;
+        if (rfbEnableExtension(c->cl, &harness_ext, d)) ev("xnew c%d", c->id); else free(d);
+      }
+    }
     else if (!strcmp(tok[0], "gonekick") && n == 3) { conn_t *o = getc_(tok[2]); if (!o) { puts("bad-op"); fflush(stdout); continue; } c->gonekick = o->id + 1; }
     else if (!strcmp(tok[0], "junk")) { unsigned char b = 0xEE; peer_send(c, &b, 1); pump(); }
     else if (!strcmp(tok[0], "partial")) {          /* less than the message the server is waiting for */
